@@ -31,14 +31,19 @@ func c10ServerManager(mode int) *logic.ServerManager {
 }
 
 func c10ServerManagerCfg(ms, num, thr, mode int) *logic.ServerManager {
-	key := fmt.Sprintf("%d:%d:%d:%d", ms, num, thr, mode)
+	return c10ServerManagerSw(ms, num, thr, mode, true, false)
+}
+
+// enable / enable_https: hls offered on the http port, on the https port
+func c10ServerManagerSw(ms, num, thr, mode int, enable, enableHttps bool) *logic.ServerManager {
+	key := fmt.Sprintf("%d:%d:%d:%d:%v:%v", ms, num, thr, mode, enable, enableHttps)
 	if sm, ok := c10sms[key]; ok {
 		return sm
 	}
 	conf := fmt.Sprintf(`{"conf_version":"v0.4.1","log":{"level":5,"filename":"","is_to_stdout":false,"is_rotate_daily":false,
 "short_file_flag":false,"timestamp_flag":false,"timestamp_with_ms_flag":false,"level_flag":false,"assert_behavior":1},
-"hls":{"enable":true,"out_path":"%s","fragment_duration_ms":%d,"fragment_num":%d,"delete_threshold":%d,"cleanup_mode":%d,
-"url_pattern":"/hls/","use_memory_as_disk_flag":false,"sub_session_timeout_ms":0,"sub_session_hash_key":""}}`, c10Root, ms, num, thr, mode)
+"hls":{"enable":%v,"enable_https":%v,"out_path":"%s","fragment_duration_ms":%d,"fragment_num":%d,"delete_threshold":%d,"cleanup_mode":%d,
+"url_pattern":"/hls/","use_memory_as_disk_flag":false,"sub_session_timeout_ms":0,"sub_session_hash_key":""}}`, enable, enableHttps, c10Root, ms, num, thr, mode)
 	sm := logic.NewServerManager(func(o *logic.Option) { o.ConfRawContent = []byte(conf) })
 	// the global logger was re-initialised by the configuration: keep it silent
 	_ = nazalog.Init(func(o *nazalog.Option) {
